@@ -15,6 +15,7 @@ import CifModel.Lemmas.NumbLimbRound
 import CifModel.Lemmas.NumbLimbLink
 import CifModel.Lemmas.NumbLimbCarry
 import CifModel.Lemmas.NumbLimbRefine
+import CifModel.Lemmas.NumbLimbDigits
 /-
   Property C10 — number text and double values convert with correct rounding.
 
@@ -383,12 +384,40 @@ theorem C10_limbs_to_double_rne (ds : List Nat) (scale : Int) (d : Dbl) (hdig : 
   rw [C10_limbs_refine_to_double ds scale d hdig h]
   exact C10_to_double_big ds scale hdig hnz hlen p hr hn
 
+/-- **C10_limbs_digits_shift** (∀ finite non-zero doubles `m·2^e`, `m < 2^53`, `−1074 ≤ e ≤ 1024`): in to_digits, after
+    the 53-bit fraction has been stored limb by limb and the binary exponent applied by passes of at most 28 bits (the
+    `do … while` right-shift passes with their extra limb, or the left-shift passes), the 156-limb array is well formed
+    and denotes `|d|` exactly: (number of the array) / 10⁹^121 = `m·2^e`. -/
+theorem C10_limbs_digits_shift (m : Nat) (e : Int) (A : Model.NumbLimbs.Arr) (hm : m ≠ 0) (hb : bitLen m ≤ 53)
+    (he1 : -1074 ≤ e) (he2 : e ≤ 1024) (h : Model.NumbLimbs.digShift m e = some A) :
+    Lemmas.NumbLimbDigits.GoodD A ∧
+    Model.NumbLimbs.natOfLimbs A.digits * (ratOfBin m e).2 = (ratOfBin m e).1 * BBASE ^ 121 :=
+  Lemmas.NumbLimbDigits.digShift_spec m e A hm hb he1 he2 h
+
+open Model.NumbLimbs Lemmas.NumbLimbPass in
+/-- **C10_limbs_round_in_limb** (∀ arrays with limbs < 10⁹ and zeros behind `lsd`, ∀ limb indices `r`, ∀ positions
+    `roundPos ≤ 8` inside the limb): the rounding step of to_digits as written — `p10 = 10^roundPos`, the check value
+    `(*dig % p10)·(BBASE/p10)` (or the next limb when `roundPos = 0`), clearing it from the limb, `round_it` on
+    `*dig / p10` with `compare_half`/`is_zero` over the following limbs, the result multiplied back by `p10` — leaves in
+    the limbs `0..r` exactly `p10 · roundHalfEven(N / U)`, `N` the number of the whole array and
+    `U = p10·10⁹^(limbs behind r)` the rounding unit: correct half-even rounding at a decimal position inside a limb. -/
+theorem C10_limbs_round_in_limb (ds : List Nat) (r lsd roundPos : Nat) (hs : Small ds)
+    (hz : ∀ j, lsd < j → ds.getD j 0 = 0) (hr : r + 1 < ds.length) (hp : roundPos ≤ 8) :
+    natOfLimbs (((if roundPos = 0 then ds else ds.set r (ds.getD r 0 - ds.getD r 0 % pow10 roundPos)).set r
+        (pow10 roundPos * roundIt (if roundPos = 0 then ds else ds.set r (ds.getD r 0 - ds.getD r 0 % pow10 roundPos))
+          ((if roundPos = 0 then ds else ds.set r (ds.getD r 0 - ds.getD r 0 % pow10 roundPos)).getD r 0 / pow10 roundPos)
+          (if roundPos = 0 then ds.getD (r + 1) 0 else (ds.getD r 0 % pow10 roundPos) * (BBASE / pow10 roundPos))
+          (if roundPos = 0 then r + 1 else r) lsd)).take (r + 1)) =
+      pow10 roundPos * roundHalfEven (natOfLimbs ds) (pow10 roundPos * BBASE ^ (ds.length - (r + 1))) :=
+  Lemmas.NumbLimbDigits.round_in_limb ds r lsd roundPos hs hz hr hp
+
 /-- the to_digits half of the limb refinement, NOT yet proved end-to-end (named partial): the pass theorems, the
-    rounding-over-limbs theorem and `C10_limbs_carry_loop` are its loop invariants; missing are (1) `limbsOfNat` reads
-    the 53-bit fraction into the array (value and positions), (2) chaining `digShr`/`digShl` passes (as `shrLoop_spec`
-    does for to_double), (3) rounding inside a limb with `p10` = `rhe` at `10^-scale` (the decomposition of the array
-    number at limb `r`), (4) `msd` of the shifted array = `limbOfPlace (flog10Rat |d|)`, (5) digit generation
-    (`limbDigits`, `countDigits`, truncation) = `decDigits`.  The equality is evaluated on every `todig` request. -/
+    rounding-over-limbs theorem and `C10_limbs_carry_loop` are its loop invariants; the shift phase
+    (`C10_limbs_digits_shift`), the rounding inside a limb (`C10_limbs_round_in_limb`) and the carry propagation
+    (`C10_limbs_carry_loop`) are proved; missing for `digFinish` are (1) `msd` of the shifted array =
+    `limbOfPlace (flog10Rat |d|)` (decides `""` against `"0"` when the value rounds to zero), (2) digit generation
+    (`limbDigits`, `countDigits`, truncation of `roundPos` characters) = `decDigits` of the printed number, (3) the
+    assembly (`10^-scale` = rounding unit / 10⁹^121, case `r < msd`).  The equality is evaluated on every `todig` request. -/
 def C10_limbs_refine_to_digits_full : Prop :=
   ∀ (m : Nat) (e scale : Int) (l : List Nat), -308 ≤ scale → scale ≤ 321 → Model.NumbLimbs.toDigitsLimbs m e scale = some l →
     l = toDigitsBig m e scale
